@@ -28,7 +28,7 @@ def _parents(root: ast.AST) -> Dict[ast.AST, ast.AST]:
     return par
 
 
-def _two_tuple_returning(wm: WrapperModel, fi: FuncInfo, call: ast.Call) -> bool:
+def _two_tuple_returning(wm: WrapperModel, fi: FuncInfo, call: ast.Call, depth: int = 0) -> bool:
     """call returns a (value, multiplicity) pair: a kernel alias of a single-pass discrete kernel, a repo function
     whose returns are 2-tuples, or `.integral(...)` of a discrete profile."""
     f = call.func
@@ -39,6 +39,12 @@ def _two_tuple_returning(wm: WrapperModel, fi: FuncInfo, call: ast.Call) -> bool
         if rets and all(isinstance(r.value, ast.Tuple) and len(r.value.elts) == 2 or
                         (isinstance(r.value, ast.Call) and isinstance(r.value.func, ast.Attribute) and r.value.func.attr == 'integral')
                         for r in rets):
+            # (a pair whose second component is a number of pairs / of list entries - `return profile, len(pairs)` - is
+            # the summed profile with its pair count, not a (value, multiplicity) pair)
+            seconds = [r.value.elts[1] for r in rets if isinstance(r.value, ast.Tuple)]
+            if seconds and len(seconds) == len(rets) and depth < 2 and \
+                    all(classify_expr(wm, t, e2, depth + 2) in ('pair-count', 'count') for e2 in seconds):
+                continue
             return True
     if isinstance(f, ast.Name) and f.id in wm.kernel_aliases(fi):
         return True
@@ -60,7 +66,7 @@ def classify_name(wm: WrapperModel, fi: FuncInfo, name: str, depth: int = 0) -> 
         if isinstance(n, ast.Assign):
             for tg in n.targets:
                 if isinstance(tg, ast.Tuple) and len(tg.elts) == 2 and isinstance(tg.elts[1], ast.Name) and tg.elts[1].id == name \
-                        and isinstance(n.value, ast.Call) and _two_tuple_returning(wm, fi, n.value):
+                        and isinstance(n.value, ast.Call) and _two_tuple_returning(wm, fi, n.value, depth):
                     classes.add('multiplicity')
                 elif isinstance(tg, ast.Tuple) and len(tg.elts) == 2 and isinstance(tg.elts[1], ast.Name) and tg.elts[1].id == name \
                         and isinstance(n.value, ast.Call):
